@@ -70,6 +70,45 @@ theorem IsWaterFilling.of_perm {g' : List α} (hperm : g'.Perm g) (h : IsWaterFi
   refine ⟨rfl, ?_⟩
   rw [(hperm.map _).sum_eq, ← h.form, h.sum]
 
+/-! ### change of units (R6): the solution scales with the inputs -/
+
+/-- total power and noise variance expressed in another unit (`× s`): allocation and level
+    are expressed in that unit too -/
+theorem IsWaterFilling.scale_power_noise {s : α} (hs : 0 < s) (h : IsWaterFilling g P N Es p mu) :
+    IsWaterFilling g (s * P) (s * N) Es (p.map (fun y => s * y)) (s * mu) := by
+  have hform : p.map (fun y => s * y) = g.map (fun x => max 0 (s * mu - s * N / (Es * x))) := by
+    rw [h.form, List.map_map]
+    apply List.map_congr_left
+    intro x _
+    simp only [Function.comp]
+    rw [mul_max_of_nonneg _ _ hs.le, mul_zero, mul_sub, mul_div_assoc]
+  refine ⟨hform, ?_⟩
+  rw [List.sum_map_mul_left, List.map_id', h.sum]
+
+/-- gains and noise variance multiplied by the same factor: nothing changes -/
+theorem IsWaterFilling.scale_gain_noise {s : α} (hs : 0 < s)
+    (h : IsWaterFilling g P N Es p mu) :
+    IsWaterFilling (g.map (fun x => s * x)) P (s * N) Es p mu := by
+  refine ⟨?_, h.sum⟩
+  rw [h.form, List.map_map]
+  apply List.map_congr_left
+  intro x _
+  simp only [Function.comp]
+  congr 2
+  rw [← mul_assoc, mul_comm Es s, mul_assoc, mul_div_mul_left _ _ hs.ne']
+
+/-- gains divided and symbol energy multiplied by the same factor: nothing changes -/
+theorem IsWaterFilling.scale_gain_energy {s : α} (hs : 0 < s)
+    (h : IsWaterFilling g P N Es p mu) :
+    IsWaterFilling (g.map (fun x => x / s)) P N (s * Es) p mu := by
+  refine ⟨?_, h.sum⟩
+  rw [h.form, List.map_map]
+  apply List.map_congr_left
+  intro x _
+  simp only [Function.comp]
+  congr 3
+  field_simp
+
 end field
 
 /-! ### optimality over ℝ -/
